@@ -147,7 +147,8 @@ def crosscheck(world, contracts, cms, limit=None):
             for s in (samples.get(c.name, []) if c.name == c.qualname else [])[:limit]:
                 n += 1
                 try:
-                    nat_args = {k: runtime.from_json(copy.deepcopy(v), recipes) for k, v in s.items()}
+                    refs = {}
+                    nat_args = {k: runtime.from_json(copy.deepcopy(v), recipes, refs) for k, v in s.items()}
                     func = runtime.target(c)
                     try:
                         r = runtime.call_native(func, nat_args)
